@@ -66,6 +66,11 @@ where parseEntry4 (id v d attrs : String) : Option PortDoc :=
     | none => none
   | _ => none
 
+def mkSlave (i : Nat) : String × Slave :=
+  ("s" ++ toString i,
+   { enabled := false, scheme := "http", host := "h", port := i, path := "/", pwHash := "", pollInterval := 0,
+     listenEnabled := false, lastSync := -1, attrs := [], provAttrs := [] })
+
 def dstep (d : DState) : List String → DState × String
   | ["begin"] => ({}, "ok")
   | ["static", id] =>
@@ -82,11 +87,9 @@ def dstep (d : DState) : List String → DState × String
     match ws.mapM (fun w => if w = "v" then some true else if w = "x" then some false else none) with
     | none => (d, "bad-op")
     | some flags =>
-      let mk (i : Nat) : String × Slave := (s!"s{i}", { enabled := false, scheme := "http", host := "h", port := i, path := "/",
-        pwHash := "", pollInterval := 0, listenEnabled := false, lastSync := -1, attrs := [], provAttrs := [] })
-      let docs := (List.range flags.length).zip flags |>.map (fun x => if x.2 then some (mk x.1) else none)
+      let docs := ((List.range flags.length).zip flags).map (fun x => if x.2 then some (mkSlave x.1) else none)
       let (st', r) := putSlavesDoc d.st docs
-      let n := ((List.range flags.length).filter (fun i => (st'.slaves s!"s{i}").isSome)).length
+      let n := ((List.range flags.length).filter (fun i => (st'.slaves ("s" ++ toString i)).isSome)).length
       let head := match r with | .ok => "ok" | .err i => s!"err {i}"
       ({ d with st := st' }, s!"{head} updating={if st'.updating then 1 else 0} events={if st'.events then 1 else 0} n={n}")
   | ["dput", f] =>
